@@ -148,7 +148,7 @@ class ScriptSim(mosaik_api_v3.Simulator):
         beh = self.cfg["script"](time, k, n)
         self.out = beh
         self.cur = (time, k)
-        self.ctl.emit(("begin", self.sid, tiers, copy.deepcopy(inputs), max_advance))
+        self.ctl.emit(("begin", self.sid, tiers, copy.deepcopy(inputs), max_advance, self.ctl.loop.vnow))
         for req in beh.get("async_before", []):
             yield from self._async(req)
         yield self.ctl.gate(self.sid, "step", beh.get("next"))
@@ -256,6 +256,15 @@ def run_world(build, until, chooser, lazy=True, cache=True, max_loop_iterations=
         scheduler.run = wrapped_run
         if rt_factor is not None:
             scheduler.perf_counter = loop.time
+        from loguru import logger as _lg
+
+        def sink(msg):
+            text = str(msg)
+            if "too slow" in text:
+                ctl.emit(("rtwarn",))
+            elif "after simulation end" in text:
+                ctl.emit(("event-ignored",))
+        sink_id = _lg.add(sink, level="WARNING")
         ctl.active = True
         try:
             with warnings.catch_warnings():
@@ -271,6 +280,10 @@ def run_world(build, until, chooser, lazy=True, cache=True, max_loop_iterations=
         ctl.flush()
         return outcome, ctl
     finally:
+        try:
+            _lg.remove(sink_id)
+        except Exception:
+            pass
         scheduler.run = saved_run
         scheduler.perf_counter = saved_pc
         ctl.active = False
